@@ -568,6 +568,85 @@ def rule_layers_own_their_quantizers(rep, repo, rule="R11"):
   return n
 
 
+def rule_constraints_follow_their_quantizer(rep, repo, rule="R12"):
+  """The range constraint a converted layer puts on a weight comes from the
+  quantizer of THAT weight: each exported layer class is built by its own
+  constructor (the repository's constraint helper interpreted) with a
+  different format per weight role, and with one role quantized only; the
+  Clip of a role holds that role's quantizer and its bound, a role without
+  quantizer keeps the constraint it was given (none)."""
+  from .c13 import layer_pe, exported_classes
+  from ..pe import ClassRef
+  n = 0
+  skipped = {}
+  for name, ci in sorted(exported_classes(repo).items()):
+    params = [p for p, _ in ci.init_params()[0]]
+    roles = [p[:-10] for p in params if p.endswith("_quantizer") and
+             p[:-10] + "_constraint" in params]
+    if len(roles) < 2:
+      continue
+    unit = "%s::%s.__init__" % (ci.module.relpath, name)
+    geometry = {p_: v_ for p_, v_ in (
+        ("units", 4), ("filters", 8), ("kernel_size", 3), ("pool_size", 2))
+                if p_ in params}
+    scenarios = [("one format per role", {
+        r + "_quantizer": "quantized_bits(%d,%d,1)" % (4 + 2 * i, i)
+        for i, r in enumerate(roles)})]
+    for r in roles:
+      scenarios.append(("only %s quantized" % r,
+                        {r + "_quantizer": "quantized_bits(6,2,1)"}))
+    for label, qkw in scenarios:
+      pe = layer_pe(repo, ci, name, own_constraints=True)
+      try:
+        layer = pe.call(ClassRef(ci), [], dict(geometry, **qkw))
+      except (PyRaise, Unsupported) as e:
+        skipped["%s %s" % (name, label)] = str(e)[:100]
+        continue
+      holder = layer
+      if not any(isinstance(layer.attrs.get(r + "_constraint"), Obj)
+                 for r in roles) and isinstance(layer.attrs.get("cell"),
+                                                Obj):
+        holder = layer.attrs["cell"]
+      bad = []
+      seen = 0
+      for r in roles:
+        c = holder.attrs.get(r + "_constraint")
+        q = holder.attrs.get(r + "_quantizer_internal")
+        if r + "_quantizer_internal" not in holder.attrs:
+          continue
+        if q is None:
+          if c is not None:
+            bad.append("%s has no quantizer but is constrained by %s" % (
+                r, "Clip(%s, %s)" % (c.attrs.get("min_value"), c.attrs.get(
+                    "max_value")) if isinstance(c, Obj) else c))
+          seen += 1
+          continue
+        if not isinstance(c, Obj) or not isinstance(q, Obj):
+          continue
+        seen += 1
+        cq = c.attrs.get("quantizer")
+        if cq is not q:
+          bad.append("the constraint of %s holds %s, the quantizer of %s "
+                     "is %s" % (
+                         r, "%s(bits=%s,integer=%s)" % (
+                             cq.cls.name, cq.attrs.get("bits"),
+                             cq.attrs.get("integer")) if isinstance(
+                                 cq, Obj) else cq, r,
+                         "%s(bits=%s,integer=%s)" % (
+                             q.cls.name, q.attrs.get("bits"),
+                             q.attrs.get("integer"))))
+      if not seen:
+        continue
+      rep.unit(unit)
+      n += 1
+      cfg = "%s, %s" % (name, label)
+      rep.check(not bad, rule, unit, "constraint-from-another-role",
+                "%s: %s" % (cfg, "; ".join(bad)), loc=ci.loc(),
+                instance=cfg)
+  rep.extra["constraint_layers_not_interpretable"] = skipped
+  return n
+
+
 def run(rep, repo, tier):
   um = repo.module(UM)
   unit = "%s::model_quantize" % um.relpath
@@ -879,6 +958,8 @@ def run(rep, repo, tier):
   rep.require_instances("R10", 20)
   rule_layers_own_their_quantizers(rep, repo)
   rep.require_instances("R11", 12)
+  rule_constraints_follow_their_quantizer(rep, repo)
+  rep.require_instances("R12", 30)
   rep.require_instances("R8", 50)
   rep.require_instances("R1", 10)
   rep.require_instances("R4", 10)
